@@ -691,6 +691,7 @@ class CSemantics:
     def on_number(self, value, location):
         """React on integer numeric literal"""
         # Get value from string:
+        value_text = value
         value, type_specifiers = utils.cnum(value)
 
         assert isinstance(value, int)
@@ -705,13 +706,17 @@ class CSemantics:
             long_type = self.get_type(["long"])
             uint_type = self.get_type(["unsigned", "int"])
 
+            # A decimal constant without suffix never gets an unsigned
+            # type, octal and hexadecimal ones may (C11 6.4.4.1).
+            decimal = not value_text.lower().startswith("0")
+
             if value <= self.context.limit_max(self.int_type):
                 typ = self.int_type
-            elif value <= self.context.limit_max(uint_type):
+            elif value <= self.context.limit_max(uint_type) and not decimal:
                 typ = uint_type
             elif value <= self.context.limit_max(long_type):
                 typ = long_type
-            elif value <= self.context.limit_max(ulong_type):
+            elif value <= self.context.limit_max(ulong_type) and not decimal:
                 typ = ulong_type
             elif value <= self.context.limit_max(longlong_type):
                 typ = longlong_type
